@@ -90,6 +90,8 @@ func c06Scenarios(c *vlib.Ctx) []c06Scenario {
 	out = append(out, c06Scenario{Kind: "destroy", State: "CONFIGURED", Kill: "refused-first", Hooks: "none", NTasks: 3})
 	out = append(out, c06Scenario{Kind: "destroy", State: "RUNNING", Force: true, Kill: "refused-first", Hooks: "none", NTasks: 4})
 	out = append(out, c06Scenario{Kind: "create-fail", Stage: "configure-error", Hooks: "none", NTasks: 3, Kill: "refused-first"})
+	out = append(out, c06Scenario{Kind: "create-fail", Stage: "detector-conflict-race", Hooks: "none", NTasks: 2, Kill: "killed"})
+	out = append(out, c06Scenario{Kind: "create-fail", Stage: "detector-conflict-race", Hooks: "calls", NTasks: 3, Kill: "killed"})
 	// two environments: the KILLs of the first destroy are never answered (its request stays pending); the
 	// destroy of the second environment, and the clean-up of a creation that fails, must still get through
 	out = append(out, c06Scenario{Kind: "second-destroy", State: "CONFIGURED", Kill: "first-unanswered", Hooks: "none", NTasks: 2})
@@ -197,7 +199,11 @@ func c06Run(c *vlib.Ctx, idx int, sc c06Scenario) {
 	for k, v := range holder.Files() {
 		files[k] = v
 	}
-	s, err := coresim.Start(coresim.Options{Agents: stdAgents(3), Detectors: stdDetectors(3), Files: files})
+	copt := coresim.Options{Agents: stdAgents(3), Detectors: stdDetectors(3), Files: files}
+	if sc.Stage == "detector-conflict-race" {
+		copt.Env = append(copt.Env, "VERIF_POINTS=envman.create.afterDetectorRead=sleep(300)")
+	}
+	s, err := coresim.Start(copt)
 	if err != nil {
 		c.Inconclusive("coresim start: " + truncate(err.Error(), 12000))
 		return
@@ -300,8 +306,54 @@ func c06Run(c *vlib.Ctx, idx int, sc c06Scenario) {
 			holderID = hr.GetEnvironment().GetId()
 		case "configure-error":
 			armedConfigureError = true
+		case "detector-conflict-race":
+			// two creations that need the same detector start together; a delay point right after the
+			// first look at the active detectors lets both pass it, so the loser is refused by the
+			// second look, the one made under the manager's lock just before registration
+			type cr struct {
+				r   *pb.NewEnvironmentReply
+				err error
+			}
+			res := make(chan cr, 2)
+			for _, n := range []string{wfName + "h", wfName} {
+				n := n
+				go func() {
+					ctx, cancel := coresim.Ctx(apiTimeout)
+					defer cancel()
+					r, err := s.Client.NewEnvironment(ctx, &pb.NewEnvironmentRequest{WorkflowTemplate: n})
+					res <- cr{r, err}
+				}()
+			}
+			r1, r2 := <-res, <-res
+			c.Count("api_requests", 2)
+			obs.Steps = append(obs.Steps, fmt.Sprintf("two racing NewEnvironment: err1=%q err2=%q", truncate(grpcMsg(r1.err), 200), truncate(grpcMsg(r2.err), 200)))
+			for _, r := range []cr{r1, r2} {
+				if r.err != nil && strings.Contains(grpcMsg(r.err), "DeadlineExceeded") {
+					hang("NewEnvironment racing with a creation on the same detector")
+					return
+				}
+			}
+			if (r1.err == nil) == (r2.err == nil) {
+				c.Inconclusive(fmt.Sprintf("scenario %d: of two racing creations on one detector exactly one should fail (C04's domain): err1=%q err2=%q", idx, grpcMsg(r1.err), grpcMsg(r2.err)))
+				return
+			}
+			win, lose := r1, r2
+			if r1.err != nil {
+				win, lose = r2, r1
+			}
+			if !strings.Contains(grpcMsg(lose.err), "already in use") {
+				c.Inconclusive(fmt.Sprintf("scenario %d: the losing creation failed for another reason: %s", idx, grpcMsg(lose.err)))
+				return
+			}
+			holderID = win.r.GetEnvironment().GetId()
+			c.Count("create_failures_at_the_locked_detector_check", 1)
 		}
-		_, err := create(name)
+		var err error
+		if sc.Stage == "detector-conflict-race" {
+			err = fmt.Errorf("lost the race")
+		} else {
+			_, err = create(name)
+		}
 		c.Count("create_failures_driven", 1)
 		if err == nil {
 			c.Inconclusive(fmt.Sprintf("scenario %d: creation expected to fail at %s succeeded", idx, sc.Stage))
@@ -449,6 +501,17 @@ func c06Run(c *vlib.Ctx, idx int, sc c06Scenario) {
 	}
 	c.Count("postcondition_checks", 1)
 	ids, err := listEnvIDs(s)
+	if err != nil && strings.Contains(grpcMsg(err), "DeadlineExceeded") && s.CoreAlive() {
+		// asked once more, with the long limit, before it is called a hang
+		ctx, cancel := coresim.Ctx(apiTimeout)
+		_, err2 := s.Client.GetEnvironments(ctx, &pb.GetEnvironmentsRequest{ShowAll: true})
+		cancel()
+		if err2 != nil && strings.Contains(grpcMsg(err2), "DeadlineExceeded") {
+			hang("GetEnvironments after the " + sc.Kind + " (asked twice, 20 s and")
+			return
+		}
+		ids, err = listEnvIDs(s)
+	}
 	if err != nil {
 		c.Inconclusive("GetEnvironments: " + grpcMsg(err))
 		return
